@@ -55,7 +55,10 @@ impl builtins::Command for ExecCommand {
                 ..Default::default()
             };
 
-            return cmd_cmd.execute(context).await;
+            // The command ran in place of the subshell, which ends with its status.
+            let mut result = cmd_cmd.execute(context).await?;
+            result.next_control_flow = brush_core::ExecutionControlFlow::ExitShell;
+            return Ok(result);
         }
 
         let mut argv0 = Cow::Borrowed(self.name_for_argv0.as_ref().unwrap_or(&self.args[0]));
